@@ -412,8 +412,8 @@ def gen_xml_docs(rng, tier):
         ['<r><i k="1"/><i k="2" xmlns:xsi="http://www.w3.org/2001/XMLSchema-instance" xsi:nil="true"/></r>'],
         ["<r><a/><b>1</b></r>", "<r><b>2</b><c/><a>x</a></r>", "<r><c>3</c></r>"],
     ]
-    for docs in hand:
-        yield xml_args([S.from_xml(d) for d in docs], docs)
+    for k, docs in enumerate(hand):  # all but the last (a b / b c a: no consistent order) are samples of a regular model
+        yield dict(xml_args([S.from_xml(d) for d in docs], docs), regular=k < len(hand) - 1)
     for i in range(n_cases(tier, 200, 5000)):
         if i % 4 == 3:
             trees = [random_tree(rng) for _ in range(rng.randint(1, 3))]
@@ -607,9 +607,33 @@ def constraint_violation(obj, path="$"):
     return None
 
 
-def oracle_xml(a):
-    """the property on the real pipeline: classes from the samples, every sample parses strictly
-    into the root class and serialises back to the same infoset"""
+_FAILURES = {}  # the structured failures behind the last few oracle messages, for the coverage predicates
+
+
+def remember(kind, docs, failures):
+    if len(_FAILURES) > 64:
+        _FAILURES.clear()
+    _FAILURES[kind + json.dumps(docs, sort_keys=True, ensure_ascii=False, default=str)] = failures
+    return failures
+
+
+def recall(kind, docs):
+    return _FAILURES.get(kind + json.dumps(docs, sort_keys=True, ensure_ascii=False, default=str))
+
+
+def failures_text(failures):
+    """the oracle's answer: None when the property holds, else EVERY failure (the first in full)"""
+    if not failures:
+        return None
+    more = "" if len(failures) == 1 else f" [and {len(failures) - 1} more: " + "; ".join(f["msg"][:160] for f in failures[1:6]) + "]"
+    return failures[0]["msg"] + more
+
+
+def xml_failures(a):
+    """the property on the real pipeline: classes from the samples, every sample parses strictly into the root
+    class and serialises back to the same infoset.  Returns EVERY failure as a record
+    {"sample", "kind": generation|roots|rejected|bounds|unserialisable|element|attributes|text|children|tail, "msg", …}:
+    a known finding explains single failures, never a whole sample set (see `attribute_xml`)"""
     import warnings
 
     from lxml import etree
@@ -618,15 +642,16 @@ def oracle_xml(a):
     from xsdata.formats.dataclass.serializers import XmlSerializer
 
     docs = a["docs"]
+    out = []
     g = CG.run_pipeline({f"s{i}.xml": t for i, t in enumerate(docs)})
     try:
         if g.error is not None:
-            return f"generation failed: {type(g.error).__name__}: {g.error}"
+            return [{"sample": None, "kind": "generation", "msg": f"generation failed: {type(g.error).__name__}: {g.error}"}]
         ctx = XmlContext()
         root_q = etree.fromstring(docs[0].encode()).tag
         roots = [c for c in g.classes().values() if hasattr(c, "__dataclass_fields__") and "." not in c.__qualname__ and ctx.build(c).qname == root_q]
         if len(roots) != 1:
-            return f"{len(roots)} generated classes answer to the root element {root_q}"
+            return [{"sample": None, "kind": "roots", "msg": f"{len(roots)} generated classes answer to the root element {root_q}"}]
         for i, text in enumerate(docs):
             parser = XmlParser(context=ctx, config=strict_config())
             try:
@@ -634,23 +659,31 @@ def oracle_xml(a):
                     warnings.simplefilter("error")
                     obj = parser.from_string(text, roots[0])
             except Exception as e:  # noqa: BLE001
-                return f"sample {i} rejected: {type(e).__name__}: {str(e)[:200]}"
+                out.append({"sample": i, "kind": "rejected", "exc": type(e).__name__, "text": str(e),
+                            "msg": f"sample {i} rejected: {type(e).__name__}: {str(e)[:200]}"})
+                continue
             cv = constraint_violation(obj)
             if cv:
-                return f"sample {i} breaks the bounds of the generated classes: {cv}"
+                out.append({"sample": i, "kind": "bounds", "text": cv, "msg": f"sample {i} breaks the bounds of the generated classes: {cv}"})
+                continue
             try:
-                out = XmlSerializer(context=ctx).render(obj)
+                rendered = XmlSerializer(context=ctx).render(obj)
             except Exception as e:  # noqa: BLE001
-                return f"sample {i} parsed but cannot be serialised: {type(e).__name__}: {str(e)[:200]}"
-            d = S.infoset_diff(S.infoset(text), S.infoset(out))
-            if d:
-                return f"sample {i} re-serialised differently: {d}"
+                out.append({"sample": i, "kind": "unserialisable", "exc": type(e).__name__, "text": str(e),
+                            "msg": f"sample {i} parsed but cannot be serialised: {type(e).__name__}: {str(e)[:200]}"})
+                continue
+            for d in S.infoset_diffs(S.infoset(text), S.infoset(rendered)):
+                out.append(dict(d, sample=i, msg=f"sample {i} re-serialised differently: {S.diff_text(d)}"))
     finally:
         g.close()
-    return None
+    return out
 
 
-def oracle_json(a):
+def oracle_xml(a):
+    return failures_text(remember("xml", a["docs"], xml_failures(a)))
+
+
+def json_failures(a):
     import warnings
 
     from xsdata.formats.dataclass.context import XmlContext
@@ -658,14 +691,16 @@ def oracle_json(a):
     from xsdata.formats.dataclass.serializers import JsonSerializer
 
     docs = a["docs"]
+    out = []
     g = CG.run_pipeline({f"s{i}.json": json.dumps(d) for i, d in enumerate(docs)})
     try:
         if g.error is not None:
-            return f"generation failed: {type(g.error).__name__}: {g.error}"
+            return [{"sample": None, "kind": "generation", "msg": f"generation failed: {type(g.error).__name__}: {g.error}"}]
         key = g.output_package.split(".")[-1].replace("_", "").lower()
         roots = [c for n, c in g.classes().items() if n.replace("_", "").lower() == key]
         if len(roots) != 1:
-            return f"{len(roots)} generated classes answer to the document name {g.output_package.split(".")[-1]}: {sorted(g.classes())}"
+            return [{"sample": None, "kind": "roots",
+                     "msg": f"{len(roots)} generated classes answer to the document name {g.output_package.split('.')[-1]}: {sorted(g.classes())}"}]
         ctx = XmlContext()
         for i, d in enumerate(docs):
             parser = JsonParser(context=ctx, config=strict_config())
@@ -674,20 +709,28 @@ def oracle_json(a):
                     warnings.simplefilter("error")
                     obj = parser.from_string(json.dumps(d), list[roots[0]] if isinstance(d, list) else roots[0])
             except Exception as e:  # noqa: BLE001
-                return f"sample {i} rejected: {type(e).__name__}: {str(e)[:200]}"
+                out.append({"sample": i, "kind": "rejected", "exc": type(e).__name__, "text": str(e),
+                            "msg": f"sample {i} rejected: {type(e).__name__}: {str(e)[:200]}"})
+                continue
             cv = constraint_violation(obj)
             if cv:
-                return f"sample {i} breaks the bounds of the generated classes: {cv}"
+                out.append({"sample": i, "kind": "bounds", "text": cv, "msg": f"sample {i} breaks the bounds of the generated classes: {cv}"})
+                continue
             try:
-                out = json.loads(JsonSerializer(context=ctx).render(obj))
+                rendered = json.loads(JsonSerializer(context=ctx).render(obj))
             except Exception as e:  # noqa: BLE001
-                return f"sample {i} parsed but cannot be serialised: {type(e).__name__}: {str(e)[:200]}"
-            diff = S.json_diff(S.json_norm(d), S.json_norm(out))
-            if diff:
-                return f"sample {i} re-serialised differently: {diff}"
+                out.append({"sample": i, "kind": "unserialisable", "exc": type(e).__name__, "text": str(e),
+                            "msg": f"sample {i} parsed but cannot be serialised: {type(e).__name__}: {str(e)[:200]}"})
+                continue
+            for df in S.json_diffs(S.json_norm(d), S.json_norm(rendered)):
+                out.append(dict(df, sample=i, msg=f"sample {i} re-serialised differently: {S.json_diff_text(df)}"))
     finally:
         g.close()
-    return None
+    return out
+
+
+def oracle_json(a):
+    return failures_text(remember("json", a["docs"], json_failures(a)))
 
 
 # ------------------------------------------------------------------ known-defect regions (precise predicates on the samples)
@@ -760,46 +803,91 @@ def region_groups(trees, only=None):
     return None
 
 
-def region_empty(trees):
-    """an element name that occurs with attributes/children and also completely empty"""
-    for q, els in occurrences(trees).items():
-        full = [e for e in els if e["c"] or [k for k, _ in e["a"] if k != S.qn(S.XSI, "nil")]]
-        empty = [e for e in els if not e["a"] and not e["c"] and not (e["t"] or "")]
-        if full and empty:
-            return f"{q} occurs with content and as <{q}/>"
+NIL = S.qn(S.XSI, "nil")
+
+
+def is_nil(e):
+    return any(k == NIL and v.strip() in ("true", "1") for k, v in e["a"])
+
+
+def is_empty(e):
+    """<q/>: no attributes, no children, no text"""
+    return not e["a"] and not e["c"] and not (e["t"] or "")
+
+
+def norm_name(n):
+    """element / attribute names and the Python names generated from them, made comparable"""
+    return re.sub(r"[^0-9a-z]", "", S.split(n)[1].lower())
+
+
+# own reference for the numeric readings: Python's int / float / Decimal and the XSD spellings, nothing of xsdata
+NUMERIC = ("int", "bool", "float", "decimal")  # the fixed order in which a generated union tries its numeric members
+
+
+def own_read(v, m):
+    """what Python itself reads from the string `v` as numeric kind `m` (leniently), or None"""
+    import decimal
+
+    try:
+        if m == "int":
+            return int(v)
+        if m == "bool":
+            return {"true": True, "1": True, "false": False, "0": False}.get(v.strip())
+        if m == "float":
+            return float(v)
+        return decimal.Decimal(v)
+    except (ValueError, decimal.InvalidOperation):
+        return None
+
+
+def own_write(x, m):
+    """the XSD spelling of a value of numeric kind `m`"""
+    if m == "int":
+        return str(x)
+    if m == "bool":
+        return "true" if x else "false"
+    if m == "float":
+        if x != x:
+            return "NaN"
+        if x in (float("inf"), float("-inf")):
+            return "INF" if x > 0 else "-INF"
+        return repr(x).upper().replace("E+", "E")
+    if x.is_infinite():
+        return str(x).replace("Infinity", "INF")
+    return f"{x:f}"
+
+
+def own_numeric_kind(v):
+    """the numeric kind whose strict lexical test `v` passes first (written back as it was spelled), or None"""
+    for m in NUMERIC:
+        x = own_read(v, m)
+        if x is not None and own_write(x, m) == v.strip():
+            return m
     return None
 
 
-def falsy_lexical(t):
-    t = (t or "").strip()
-    if t in ("false", ""):
-        return True
-    try:
-        return float(t) == 0
-    except ValueError:
-        return False
-
-
-def region_empty_next_to_nil(trees):
-    """a leaf that is xsi:nil in one place and empty (no attributes, no text) in another: both become the
-    empty nillable class"""
-    for q, els in occurrences(trees).items():
-        nil = [e for e in els if any(k == S.qn(S.XSI, "nil") for k, _ in e["a"])]
-        empty = [e for e in els if not class_like(e) and not (e["t"] or "")]
-        if nil and empty:
-            return f"{q} occurs with xsi:nil and as <{q}/>"
+def union_reading(v, members):
+    """(kind, value): how a union having the numeric `members` reads `v`: first member, in the fixed order, that
+    accepts it leniently; None when no numeric member does (the other members are assumed to read only what
+    they also write back)"""
+    for m in NUMERIC:
+        if m in members:
+            x = own_read(v, m)
+            if x is not None:
+                return m, x
     return None
 
 
 def value_sites(trees):
     """site -> the lexical values found there; a site is what becomes one generated field"""
     sites = {}
+    roots = [id(t) for t in trees]  # a root element is mapped as a class whatever it holds
     for q, els in occurrences(trees).items():
         for e in els:
             for k, v in e["a"]:
-                if k != S.qn(S.XSI, "nil"):
+                if k != NIL:
                     sites.setdefault((q, "@" + k), []).append(v)
-            if class_like(e) and (e["t"] or "").strip() and not e["c"]:
+            if (class_like(e) or id(e) in roots) and (e["t"] or "").strip() and not e["c"]:
                 sites.setdefault((q, "#text"), []).append(e["t"])
             for c in e["c"]:
                 if not class_like(c):
@@ -807,44 +895,220 @@ def value_sites(trees):
     return sites
 
 
-def region_union(trees):
-    """a field whose sample values are inferred to different types, one of which reads another's
-    value leniently: the generated union tries its members in a fixed order, not by strict fit"""
-    from xsdata.codegen.mappers.mixins import RawDocumentMapper
-    from xsdata.formats.converter import converter
-    from xsdata.models.enums import DataType
-
+def predicted_union_rewrites(trees):
+    """C13-union-member-order, exactly: site -> {value: what it is re-serialised as}.  The values of one field are
+    typed one by one by a strict lexical test, the generated union reads each value with its first numeric member
+    (fixed order int, bool, float, Decimal) that accepts it leniently and writes THAT member's spelling."""
+    out = {}
     for site, values in value_sites(trees).items():
-        dts = []
+        members = {own_numeric_kind(v) for v in values if v} - {None}
         for v in values:
-            dt = DataType.from_qname(RawDocumentMapper.build_attr_type("x", v).qname)
-            if dt not in dts and dt is not DataType.ANY_SIMPLE_TYPE:
-                dts.append(dt)
-        if len(dts) < 2:
+            r = union_reading(v, members) if v else None
+            if r is not None and own_write(r[1], r[0]) != v:
+                out.setdefault(site, {})[v] = own_write(r[1], r[0])
+    return out
+
+
+def class_members(els):
+    """the members of the class an element name gets, from its class-like occurrences (the only ones
+    ElementMapper counts): name -> (required, repeats)"""
+    counted = [e for e in els if class_like(e)]
+    members, valued = {}, set()
+    for e in counted:
+        names = ["@" + k for k, _ in e["a"] if k != NIL] + [c["q"] for c in e["c"]]
+        valued |= {c["q"] for c in e["c"] if class_like(c) or (c["t"] or "")}
+        if not e["c"] and (e["t"] or "").strip():
+            names.append("#text")
+            valued.add("#text")
+        for n in set(names):
+            members.setdefault(n, []).append(names.count(n))
+    # a single child that never carries a value is typed anySimpleType alone and gets a default
+    # (SanitizeAttributesDefaultValue); an attribute or a repeated child of that kind stays required
+    return {n: (len(cs) == len(counted) and (n in valued or n.startswith("@") or max(cs) > 1), max(cs) > 1) for n, cs in members.items()}
+
+
+MISSING_ARGS = re.compile(r"^Failed to create `(\w+)`: (\w+)\.__init__\(\) missing (\d+) required keyword-only arguments?: (.*)$")
+ZERO_ITEMS = re.compile(r"^\$(?:\.\w+(?:\[\d+\])?)*\.(\w+?)(?:\[\d+\])?\.(\w+): 0 items, the generated field declares min_occurs=(\d+)$")
+
+
+def explain_empty_occurrence(trees, f):
+    """C13-empty-occurrence-ignored, exactly: an element name that has occurrences with attributes / children and a
+    completely empty one.  The empty one is not counted, so the members every counted occurrence has are required:
+    the sample holding <q/> is rejected for exactly those missing arguments of exactly that class (or, when all of
+    them are lists, found with 0 items under min_occurs >= 1)."""
+    if f["sample"] is None:
+        return None
+    here = occurrences([trees[f["sample"]]])
+    everywhere = occurrences(trees)
+    for q, els in here.items():
+        if not any(is_empty(e) for e in els):
             continue
-        types = converter.sort_types([dt.type for dt in dts])
-        for v in values:
-            if not v:
-                continue
-            try:
-                back = converter.serialize(converter.deserialize(v, types))
-            except Exception:  # noqa: BLE001
-                continue
-            if back != v:
-                return f"{site[0]} {site[1]}: values typed {[d.code for d in dts]}; {v!r} is read back as {back!r}"
+        members = class_members(everywhere[q])
+        single = sorted(norm_name(n.lstrip("@")) if n != "#text" else "value" for n, (req, rep) in members.items() if req and not rep)
+        lists = sorted(norm_name(n) for n, (req, rep) in members.items() if req and rep)
+        if f["kind"] == "rejected" and f["exc"] == "ParserError" and single:
+            m = MISSING_ARGS.match(f["text"])
+            if m and m.group(1) == m.group(2) and norm_name(m.group(1)) == norm_name(q):
+                named = sorted(norm_name(x) for x in re.findall(r"'(\w+)'", m.group(4)))
+                if named == single and int(m.group(3)) == len(single):
+                    return f"<{q}/> beside occurrences of {q} that all have {single}"
+        if f["kind"] == "bounds" and not single and lists:
+            m = ZERO_ITEMS.match(f["text"])
+            if m and norm_name(m.group(1)) == norm_name(q) and norm_name(m.group(2)) in lists:
+                return f"<{q}/> beside occurrences of {q} that all have the repeated {lists}"
     return None
 
 
-def region_absent_nillable(trees):
-    """an optional child that is absent somewhere and nil somewhere else"""
-    occ = occurrences(trees)
-    nil_names = {q for q, els in occ.items() if any(k == S.qn(S.XSI, "nil") for e in els for k, _ in e["a"])}
-    for q, els in occ.items():
-        present = [{c["q"] for c in e["c"]} for e in els if class_like(e)]
-        for n in nil_names:
-            if any(n in p for p in present) and any(n not in p for p in present):
-                return f"{n} is nil in one place and absent from an occurrence of {q}"
+def explain_union(trees, f):
+    """a text or an attribute value rewritten exactly as `predicted_union_rewrites` says"""
+    rewrites = predicted_union_rewrites(trees)
+    node, path = f["node"], f["path"]
+    if f["kind"] == "text":
+        if node[3]:
+            return None
+        site = (path[-1], "#text") if node[1] or len(path) == 1 else (path[-2], path[-1])
+        if rewrites.get(site, {}).get(f["before"]) == f["after"]:
+            return f"{site[0]} {site[1]}: {f['before']!r} is read by an earlier numeric member of the union and written as {f['after']!r}"
+        if not node[1]:
+            # a plain leaf whose name is a class elsewhere (simple content with attributes): the field is class | primitive,
+            # the class is tried first and reads the text with the union of ITS text values
+            members = {own_numeric_kind(v) for v in value_sites(trees).get((path[-1], "#text"), []) if v} - {None}
+            r = union_reading(f["before"], members)
+            if r is not None and own_write(r[1], r[0]) == f["after"] != f["before"]:
+                return f"{path[-1]}: the leaf is read as the class of its name, whose text has the numeric members {sorted(members)}"
+        return None
     return None
+
+
+def explain_attributes(trees, f):
+    """an `attributes` difference, taken apart: values that changed (each must be a predicted rewrite of its union site)
+    and xsi:nil appearing or disappearing (each must be the exact case of one finding); every part must be explained"""
+    if f["kind"] != "attributes":
+        return None
+    before, after = dict(f["before"]), dict(f["after"])
+    if len(before) != len(f["before"]) or len(after) != len(f["after"]):
+        return None
+    nil_before, nil_after = before.pop(NIL, None), after.pop(NIL, None)
+    if sorted(before) != sorted(after):
+        return None
+    q, node = f["path"][-1], f["node"]
+    parts = []
+    changed = [k for k in before if before[k] != after[k]]
+    if changed:
+        rewrites = predicted_union_rewrites(trees)
+        if not all(rewrites.get((q, "@" + k), {}).get(before[k]) == after[k] for k in changed):
+            return None
+        parts.append(("C13-union-member-order", f"{q} @{changed}: read by an earlier numeric member of the union"))
+    if nil_before != nil_after:
+        bare = not node[2] and not node[3]
+        if nil_before is None and nil_after == "true" and bare and not before:
+            if not any(is_nil(e) for e in occurrences(trees).get(q, [])):
+                return None
+            parts.append(("C13-empty-leaf-next-to-nil", f"<{q}/> beside an xsi:nil {q}"))
+        elif nil_before is None and nil_after == "true" and bare and class_nillable(trees).get(q) is True:
+            parts.append(("C13-nillable-from-first-occurrence", f"<{q}> with attributes and no content; the occurrence of {q} that is mapped first is xsi:nil"))
+        elif nil_before == "true" and nil_after is None and bare and absent_nillable_children(trees, q):
+            parts.append(("C13-absent-nillable-rendered-nil", f"xsi:nil {q} gets {sorted(absent_nillable_children(trees, q))} invented and is not empty any more"))
+        else:
+            return None
+    return parts[0] if parts and all(fid in listed_findings() for fid, _ in parts) else None
+
+
+def absent_nillable_children(trees, q):
+    """C13-absent-nillable-rendered-nil: the children of q that are xsi:nil in some occurrence of q"""
+    return {c["q"] for e in occurrences(trees).get(q, []) for c in e["c"] if is_nil(c)}
+
+
+_MODEL_FIELDS = {}
+
+
+def model_fields(trees):
+    """class qname -> the fields the Lean model of the UNCHANGED generator (map, reduce, attribute paths, sequence
+    numbers: op smp.fields, tied to the real generator field by field on every run) gives the class; {} when the
+    driver cannot be asked"""
+    from framework import Driver
+
+    key = json.dumps(trees, sort_keys=True, ensure_ascii=False)
+    if key not in _MODEL_FIELDS:
+        if len(_MODEL_FIELDS) > 64:
+            _MODEL_FIELDS.clear()
+        try:
+            args = {"trees": trees, "freprs": freprs(s for t in trees for s in S.tree_strings(t))}
+            out = Driver().run([{"op": "smp.fields", "args": args}])[0]
+            _MODEL_FIELDS[key] = {c["qname"]: c["fields"] for c in out["ok"]}
+        except Exception:  # noqa: BLE001
+            _MODEL_FIELDS[key] = {}
+    return _MODEL_FIELDS[key]
+
+
+def written_order(fields, children):
+    """own replica of the order in which the serializer writes the element children of an object: field by field,
+    the fields of one sequence number (from the first to the last field carrying it) round by round.  `children`
+    are the names as the sample has them; None when the fields do not determine the order (mixed / wildcard)"""
+    if fields is None or any(f["tag"] not in ("Element", "Attribute", "Text", "SimpleType") for f in fields):
+        return None
+    el = [f for f in fields if f["tag"] == "Element"]
+    values = {}
+    for n in children:
+        owner = [f["name"] for f in el if f["name"] == S.split(n)[1]]
+        if len(owner) != 1:
+            return None
+        values.setdefault(owner[0], []).append(n)
+    out, i = [], 0
+    while i < len(el):
+        f = el[i]
+        if f["seq"] is None:
+            out.extend(values.get(f["name"], []))
+            i += 1
+            continue
+        end = max(j for j in range(i, len(el)) if el[j]["seq"] == f["seq"])
+        group, i, j, rolling = el[i:end + 1], end + 1, 0, True
+        while rolling:
+            rolling = False
+            for g in group:
+                vs = values.get(g["name"], [])
+                if g["list"]:
+                    if j < len(vs):
+                        rolling = True
+                        out.append(vs[j])
+                elif j == 0:
+                    rolling = True
+                    out.extend(vs)
+            j += 1
+    return out
+
+
+def explain_children(trees, f):
+    """a `children` difference, taken apart: children that disappeared are never explained; a child that appeared
+    must be exactly <n xsi:nil="true"/> for an n that is nil in another occurrence of this element and absent here
+    (C13-absent-nillable-rendered-nil); what is left may differ from the sample only by its order, and only if one
+    of the two order findings holds for THIS element name."""
+    if f["kind"] != "children" or f["missing"]:
+        return None
+    q = f["path"][-1]
+    fid = why = None
+    if f["extra"]:
+        if "C13-absent-nillable-rendered-nil" not in listed_findings():
+            return None
+        nilable = absent_nillable_children(trees, q)
+        if len({x[0] for x in f["extra"]}) != len(f["extra"]):
+            return None  # an absent optional child is written once
+        for x in f["extra"]:
+            if not (x[0] in nilable and x[0] not in f["before"] and x[1] == [(NIL, "true")] and not x[2] and not x[3]):
+                return None
+        fid, why = "C13-absent-nillable-rendered-nil", f"{sorted({x[0] for x in f['extra']})} nil in another occurrence of {q}, absent here"
+    if f["kept"] != f["before"]:
+        if sorted(f["kept"]) != sorted(f["before"]):
+            return None
+        predicted = written_order(model_fields(trees).get(q), f["before"])
+        if predicted is not None and predicted != f["kept"]:
+            return None  # not the order the unchanged generator's fields give this occurrence
+        for oid, pred in (("C13-sequence-numbers-positional", region_groups), ("C13-field-order-greedy-merge", region_order)):
+            w = pred(trees, only=q) if oid in listed_findings() else None
+            if w:
+                return (fid or oid), (why + "; " if why else "") + w
+        return None
+    return (fid, why) if fid else None
 
 
 def flatten_order(e):
@@ -915,51 +1179,93 @@ def region_order(trees, only=None):
     return None
 
 
-XML_REGIONS = [
-    ("C13-union-member-order", region_union),
-    ("C13-sequence-numbers-positional", region_groups),
-    ("C13-empty-occurrence-ignored", region_empty),
-    ("C13-empty-leaf-next-to-nil", region_empty_next_to_nil),
-    ("C13-absent-nillable-rendered-nil", region_absent_nillable),
-    ("C13-field-order-greedy-merge", region_order),
-]
+def class_nillable(trees):
+    """C13-nillable-from-first-occurrence: element name -> the nillable flag its class gets: that of the occurrence
+    that is mapped first (documents in order, inside a document in `flatten_order`), not of any occurrence"""
+    out = {}
+    for t in trees:
+        for e in flatten_order(t):
+            out.setdefault(e["q"], is_nil(e))
+    return out
 
 
-REORDERED = re.compile(r"re-serialised differently: (.*): children (\[.*\]) became (\[.*\])$")
+def explain_nillable_first(trees, f):
+    """exactly the two things the unchanged code does with an element name that is xsi:nil in one place and not in
+    another (both with attributes / children, i.e. both mapped as occurrences of the class): the class is not nillable
+    (first mapped occurrence is not nil) -> the sample holding a nil one is rejected, `Unknown property <parent>:<name>`;
+    the class is nillable (first mapped occurrence is nil) -> an occurrence that has attributes but no content comes
+    back with xsi:nil="true" added to them"""
+    flags = class_nillable(trees)
+    if f["kind"] == "rejected" and f["exc"] == "ParserError" and f["sample"] is not None:
+        occ = occurrences(trees)
 
+        def message(parent, child):
+            """the parser's words for a child it cannot place: a field whose type is the class alone has no match for
+            the nil element; a field that is class | primitive (the name also occurs as a leaf with a value under this
+            parent; an empty leaf is typed anySimpleType, which filter_types drops) goes through the union node"""
+            plain = any(not class_like(c) and (c["t"] or "") for e in occ[parent] for c in e["c"] if c["q"] == child)
+            return f"Failed to parse union node: {child}" if plain else f"Unknown property {parent}:{child}"
 
-def reordered_element(msg):
-    """the element whose children came back as a permutation of themselves, if that is what `msg` reports"""
-    m = REORDERED.search(msg or "")
-    if not m:
-        return None
-    try:
-        before, after = eval(m.group(2)), eval(m.group(3))  # noqa: S307  (lists of names printed by infoset_diff)
-    except Exception:  # noqa: BLE001
-        return None
-    if sorted(before) != sorted(after):
-        return None
-    q = re.search(r"/(\{[^}]*\}[^/{}]+|[^/{}]+)$", m.group(1))
-    return q.group(1) if q else None
+        def walk(e):
+            for c in e["c"]:
+                if is_nil(c) and flags.get(c["q"]) is False and f["text"] == message(e["q"], c["q"]):
+                    return f"{c['q']} is xsi:nil under {e['q']}, but the occurrence of {c['q']} that is mapped first is not"
+                w = walk(c)
+                if w:
+                    return w
+            return None
 
-
-def xml_region(docs, msg=None):
-    """the listed finding whose region holds these samples.  A failure that is a pure reordering of the
-    children of an element is only ever attributed to the two order findings, and only when their predicate
-    holds for THAT element: a wrong order where the unchanged merge is consistent is a new violation."""
-    trees = [S.from_xml(d) for d in docs]
-    q = reordered_element(msg)
-    if q is not None:
-        for fid, pred in (("C13-sequence-numbers-positional", region_groups), ("C13-field-order-greedy-merge", region_order)):
-            why = pred(trees, only=q)
-            if why:
-                return fid, why
-        return None
-    for fid, pred in XML_REGIONS:
-        why = pred(trees)
-        if why:
-            return fid, why
+        return walk(trees[f["sample"]])
     return None
+
+
+def explain_xml(trees, f):
+    """(finding id, why) when the listed finding predicts exactly this failure on these samples, else None.
+    A finding covers single failures of the kind and at the place the unchanged code produces them; every other
+    failure on the same samples is a new violation."""
+    if f["kind"] in ("rejected", "bounds"):
+        w = explain_empty_occurrence(trees, f)
+        if w:
+            return "C13-empty-occurrence-ignored", w
+        w = explain_nillable_first(trees, f)
+        return ("C13-nillable-from-first-occurrence", w) if w else None
+    if f["kind"] == "text":
+        w = explain_union(trees, f)
+        return ("C13-union-member-order", w) if w else None
+    if f["kind"] == "attributes":
+        return explain_attributes(trees, f)
+    if f["kind"] == "children":
+        return explain_children(trees, f)
+    return None
+
+
+def listed_findings():
+    """ids of the C13 findings in known_findings.json: a predicate of this plug-in explains a failure only while its
+    finding is listed there (and therefore replayed and printed on every run)"""
+    from framework import load_findings
+
+    return {f["id"] for f in load_findings().get("findings", []) if f.get("property") == PROP_ID}
+
+
+def only_listed(r):
+    return r if r is not None and r[0] in listed_findings() else None
+
+
+def attribute_xml(docs, failures):
+    """one entry per failure: (failure, (finding id, why) | None)"""
+    trees = [S.from_xml(d) for d in docs]
+    return [(f, only_listed(explain_xml(trees, f))) for f in failures]
+
+
+def region_of(attributed):
+    """the finding of the first failure when EVERY failure is explained by a listed finding, else None"""
+    if not attributed or any(r is None for _, r in attributed):
+        return None
+    return attributed[0][1]
+
+
+def xml_region(docs, failures):
+    return region_of(attribute_xml(docs, failures))
 
 
 def json_sites(docs, name="doc"):
@@ -969,7 +1275,7 @@ def json_sites(docs, name="doc"):
     def walk(d, cls):
         for k, v in d.items():
             vals = v if isinstance(v, list) else [v]
-            out.setdefault(cls, {}).setdefault(k, []).append(v)
+            out.setdefault(cls, {}).setdefault(k, []).extend(vals)
             for x in vals:
                 if isinstance(x, dict):
                     walk(x, k)
@@ -981,34 +1287,56 @@ def json_sites(docs, name="doc"):
     return out
 
 
-def region_json_typed_string(docs):
-    from xsdata.codegen.mappers.mixins import RawDocumentMapper
-    from xsdata.models.enums import DataType
+def json_kind(v):
+    if isinstance(v, bool):
+        return "bool"
+    if isinstance(v, int):
+        return "int"
+    if isinstance(v, float):
+        return "float"
+    return own_numeric_kind(v) if isinstance(v, str) and v else None
 
-    for s in (x for d in docs for x in S.json_strings(d)):
-        dt = DataType.from_qname(RawDocumentMapper.build_attr_type("x", s).qname)
-        if dt is not None and dt.type in (int, bool, float) or (dt is not None and dt.type.__name__ == "Decimal"):
-            return f"the string {s!r} is inferred as {dt.code}"
+
+def explain_json(docs, f, name="doc"):
+    """C13-json-string-typed-by-lexical-form, exactly: a JSON string whose field has a numeric member (because this
+    string, or another value of the same key, looks like a number / boolean) comes back as the literal that member
+    reads from it; nothing else"""
+    if f["kind"] != "changed" or not isinstance(f["before"], str):
+        return None
+    keys = [k for k in f["path"] if not isinstance(k, int)]
+    if not keys:
+        return None
+    cls = keys[-2] if len(keys) > 1 else name
+    values = json_sites(docs, name).get(cls, {}).get(keys[-1], [])
+    if f["before"] not in values:
+        return None
+    members = {json_kind(v) for v in values} - {None}
+    r = union_reading(f["before"], members)
+    if r is None:
+        return None
+    literal = float(r[1]) if r[0] == "decimal" else r[1]
+    if S.json_norm(literal) == f["after"]:
+        return "C13-json-string-typed-by-lexical-form", f"the string {f['before']!r} of {cls}.{keys[-1]} is read as the {r[0]} {literal!r}"
     return None
 
 
-JSON_REGIONS = [
-    ("C13-json-string-typed-by-lexical-form", region_json_typed_string),
-]
+def attribute_json(docs, failures):
+    return [(f, only_listed(explain_json(docs, f))) for f in failures]
 
 
-def json_region(docs):
-    for fid, pred in JSON_REGIONS:
-        why = pred(docs)
-        if why:
-            return fid, why
-    return None
+def json_region(docs, failures):
+    return region_of(attribute_json(docs, failures))
 
 
 # ------------------------------------------------------------------ oracles as correspondence ops and for the search
+NIL_COMPLEX = "C13-nillable-from-first-occurrence"
+
+
 def clean_xml_docs(rng, hetero=0.0):
-    """samples of a hidden regular model; with hetero=0 they avoid the listed defect regions mostly"""
-    m = S.gen_xml_model(rng, hetero=hetero, group_min=2 if hetero == 0 else 1)
+    """samples of a hidden regular model; with hetero=0 they avoid the listed defect regions mostly.
+    Elements with attributes / children are nillable too once the defect that goes with them is a listed finding
+    (until then every such model would end in the same already reported violation)"""
+    m = S.gen_xml_model(rng, hetero=hetero, group_min=2 if hetero == 0 else 1, nil_complex=0.12 if NIL_COMPLEX in listed_findings() else 0.0)
     return [
         S.to_xml(S.instance(rng, m, 2 if hetero == 0 else 1), pretty=rng.random() < 0.3, default_ns=rng.choice(S.NAMESPACES))
         for _ in range(rng.randint(1, 4))
@@ -1022,6 +1350,7 @@ WITNESS_XML = {
     "C13-empty-leaf-next-to-nil": [f'<r xmlns:xsi="{S.XSI}"><i xsi:nil="true"/><i/></r>'],
     "C13-absent-nillable-rendered-nil": [f'<r xmlns:xsi="{S.XSI}"><a>1</a><n xsi:nil="true"/></r>', "<r><a>2</a></r>"],
     "C13-field-order-greedy-merge": ["<r><x><b>1</b><c>1</c></x><x><v>1</v><b>1</b></x><x><v>1</v><c>1</c></x></r>"],
+    "C13-nillable-from-first-occurrence": [f'<r xmlns:xsi="{S.XSI}"><i xsi:nil="true"/><i><a>1</a></i></r>'],
 }
 WITNESS_JSON = {
     "C13-json-string-typed-by-lexical-form": [{"a": "12"}],
@@ -1036,6 +1365,7 @@ HAND_OK_XML = [
     ["<r><i><a>1</a><z>9</z></i><i><a>2</a><p>x</p><q>y</q><s>w</s><z>8</z></i><i><a>3</a><b>u</b><c>v</c><z>7</z></i></r>"],
     ["<r><p><b/> tail only</p><p><b>x</b></p></r>"],
     ["<r><p><b/><b/> tail<i>x</i></p><p>lead <i>y</i></p></r>"],
+    ["<r><p>lead <i>y</i><b>z</b></p><p>other <i>y</i></p></r>"],  # mixed only because of the text in front of the children
     ["<r><a>1</a><o>true</o></r>", "<r><a>2</a></r>"],
     ['<r><item id="1"><n>x</n></item><item id="2"><n>y</n><m>2.5</m></item></r>'],
     [f'<r xmlns:xsi="{S.XSI}"><a xsi:nil="true"/><b>1</b></r>', "<r><a>5</a><b>1</b></r>"],
@@ -1050,23 +1380,25 @@ def e2e_xml_args(docs):
 def gen_e2e_xml(rng, tier):
     for docs in HAND_OK_XML:
         yield e2e_xml_args(docs)
-    for docs in WITNESS_XML.values():
-        yield e2e_xml_args(docs)
+    for fid, docs in WITNESS_XML.items():
+        if fid in listed_findings():
+            yield e2e_xml_args(docs)
     for i in range(n_cases(tier, 260, 2000)):
         yield e2e_xml_args(clean_xml_docs(rng, hetero=0.3 if i % 6 == 5 else 0.0))
 
 
-def outcome(msg, region):
-    if msg is None:
+def outcome(attributed):
+    """accepted | finding:<id> (every failure is one a listed finding predicts; the first one's id) | violation"""
+    if not attributed:
         return ok("accepted")
+    region = region_of(attributed)
     if region:
         return ok("finding:" + region[0])
-    return err("violation: " + msg)
+    return err("violation: " + "; ".join(f["msg"][:300] for f, r in attributed if r is None)[:900])
 
 
 def impl_e2e_xml(a):
-    msg = oracle_xml(a)
-    return outcome(msg, xml_region(a["docs"], msg))
+    return outcome(attribute_xml(a["docs"], xml_failures(a)))
 
 
 def e2e_json_args(docs):
@@ -1092,7 +1424,7 @@ def gen_e2e_json(rng, tier):
 
 
 def impl_e2e_json(a):
-    return outcome(oracle_json(a), json_region(a["docs"]))
+    return outcome(attribute_json(a["docs"], json_failures(a)))
 
 
 def gen_fields(rng, tier):
@@ -1162,7 +1494,8 @@ def classify_fields(a, o):
 def compare_e2e(mo, io, a):
     """the model's own verdict (every mapped occurrence is admitted by the reduced classes) must be
     `accepted`; the real pipeline must accept the samples or fail inside a listed defect region"""
-    return mo == {"ok": "accepted"} and isinstance(io, dict) and "ok" in io
+    return mo == {"ok": "accepted"} and isinstance(io, dict) and (
+        io.get("ok") == "accepted" or (isinstance(io.get("ok"), str) and io["ok"].startswith("finding:") and io["ok"][8:] in FINDINGS))
 
 
 def classify_e2e(a, o):
@@ -1207,12 +1540,20 @@ def gen_oracle_json(rng, tier):
 
 
 def covered_xml(a, msg):
-    r = xml_region(a["docs"], msg)
+    """the oracle's message lists every failure of the sample set; it is covered only when each single failure is
+    one a listed finding predicts (kind, place and new value)"""
+    failures = recall("xml", a["docs"])
+    if failures is None:
+        failures = xml_failures(a)
+    r = xml_region(a["docs"], failures)
     return r[0] if r else None
 
 
 def covered_json(a, msg):
-    r = json_region(a["docs"])
+    failures = recall("json", a["docs"])
+    if failures is None:
+        failures = json_failures(a)
+    r = json_region(a["docs"], failures)
     return r[0] if r else None
 
 
@@ -1249,9 +1590,9 @@ ORACLES = [
 def replay_xml(fid):
     def run():
         docs = WITNESS_XML[fid]
-        msg = oracle_xml({"docs": docs})
-        reg = xml_region(docs, msg)
-        return (msg is not None and reg is not None and reg[0] == fid, msg or "the samples now round-trip")
+        att = attribute_xml(docs, xml_failures({"docs": docs}))
+        still = bool(att) and all(r is not None and r[0] == fid for _, r in att)
+        return (still, failures_text([f for f, _ in att]) or "the samples now round-trip")
 
     return run
 
@@ -1259,9 +1600,9 @@ def replay_xml(fid):
 def replay_json(fid):
     def run():
         docs = WITNESS_JSON[fid]
-        msg = oracle_json({"docs": docs})
-        reg = json_region(docs)
-        return (msg is not None and reg is not None and reg[0] == fid, msg or "the samples now round-trip")
+        att = attribute_json(docs, json_failures({"docs": docs}))
+        still = bool(att) and all(r is not None and r[0] == fid for _, r in att)
+        return (still, failures_text([f for f, _ in att]) or "the samples now round-trip")
 
     return run
 
@@ -1287,6 +1628,7 @@ LEVEL_TEXT = (
     "occurrence survives the merge (sequence_marker_kept) and a regular sequence group is written back in document order by EventGenerator.next_value (interleave_reproduced). "
     "Three full-strength statements the code violates (union members read in fixed order, positional sequence numbers, greedy field order) are refuted by witnesses and "
     "proved under decidable hypotheses. Tied to /repo by correspondence of every core (the real ResourceTransformer on preloaded resources) and by the end-to-end oracle "
-    "(whole pipeline, strict parse, re-serialisation) on samples of hidden regular models; seven defects listed as known findings, three repaired."
+    "(whole pipeline, strict parse, re-serialisation; EVERY failure of a sample set is collected and each must be one a listed finding predicts: kind, place and new value) "
+    "on samples of hidden regular models; eight defects listed as known findings, three repaired."
 )
 LEVEL_NOTE = "Trusted: Lean kernel, sampling correspondence, lxml, stand-in renderer; repr(float) abstract; mixed classes outside the field model."
